@@ -203,6 +203,34 @@ func (t *tr) expr(e ast.Expr) (string, kind) {
 		if t.isErrCtor(x) {
 			return fmt.Sprint(t.errSite(t.render(x))), kErr
 		}
+		// pure helper over headers: func f(a, b *types.Header) T { return expr } — inlined
+		if id, ok := x.Fun.(*ast.Ident); ok {
+			if fd, ok := t.funcs[id.Name]; ok && fd.Recv == nil && len(fd.Body.List) == 1 {
+				if rs, ok := fd.Body.List[0].(*ast.ReturnStmt); ok && len(rs.Results) == 1 {
+					t.push()
+					defer t.pop()
+					i := 0
+					for _, p := range fd.Type.Params.List {
+						for _, n := range p.Names {
+							if i >= len(x.Args) {
+								t.fail(e, "helper call arity")
+							}
+							arg, ok := x.Args[i].(*ast.Ident)
+							if !ok {
+								t.fail(e, "helper call argument must be an identifier")
+							}
+							ab := t.lookup(arg.Name)
+							if ab == nil || ab.k != kHdr {
+								t.fail(e, "helper call argument must be a header")
+							}
+							t.scopes[len(t.scopes)-1][n.Name] = ab
+							i++
+						}
+					}
+					return t.expr(rs.Results[0])
+				}
+			}
+		}
 		t.fail(e, "unsupported call %s", t.render(x))
 	case *ast.UnaryExpr:
 		if x.Op == token.NOT {
@@ -222,6 +250,12 @@ func (t *tr) expr(e ast.Expr) (string, kind) {
 				t.fail(e, "+ on non-uint64")
 			}
 			return "((" + l + " + " + r + ") % U64)", kNat
+		case token.SUB:
+			if lk != kNat || rk != kNat {
+				t.fail(e, "- on non-uint64")
+			}
+			// uint64 subtraction wraps around
+			return "((" + l + " + (U64 - " + r + " % U64)) % U64)", kNat
 		case token.LAND, token.LOR:
 			if lk != kBool || rk != kBool {
 				t.fail(e, "logical op on non-bool")
@@ -360,7 +394,17 @@ func (t *tr) stmt(s ast.Stmt, d int) string {
 		return t.block(x.List, d)
 	case *ast.IfStmt:
 		if x.Init != nil {
-			t.fail(s, "if with init statement unsupported")
+			// `if init; cond {…}`: the init statement runs first, its variables are scoped to the if
+			t.push()
+			defer t.pop()
+			initS := t.stmt(x.Init, d)
+			y := *x
+			y.Init = nil
+			rest := t.stmt(&y, d)
+			if initS == "" {
+				return rest
+			}
+			return initS + " ;;\n" + rest
 		}
 		if t.isNilGuard(x) {
 			return ""
